@@ -572,10 +572,13 @@ fn exec(plan: &Plan, out: &mut RunOut) {
                                 replay(),
                             );
                         } else if !*ok {
+                            if documented_panic_on_invalid(*how) {
+                                out.viol("C11/missing-panic", pname.clone(), format!("{} is documented to panic on an invalid argument but returned {}", pname, hexw(&w.words())), replay());
+                            }
                             out.viol(
                                 "C12/accepted-invalid",
                                 format!("{}:{}", pname, w.ty()),
-                                format!("{} accepted the invalid argument {} and produced {} = {}", pname, if bytes.is_empty() { hexw(words) } else { hex(bytes) }, w.ty(), hexw(&w.words())),
+                                format!("{} accepted the invalid argument {} and produced {} = {}", pname, if is_byte_order_producer(*how) { hex(bytes) } else { hexw(words) }, w.ty(), hexw(&w.words())),
                                 replay(),
                             );
                         }
